@@ -120,5 +120,14 @@ func init() {
 	extraTrees["c7zeros-old"] = func() fsmodel.Tree {
 		return fsmodel.Tree{f("allzero", 31, 9000, t1+9), f("tail", 32, 100000, t1+9)}
 	}
+	// the view of C06 plus a unix socket (announced as an empty regular file that cannot be opened) and, at the root,
+	// an entry named like the listing file of a metadata-only receive
+	extraTrees["v1odd"] = func() fsmodel.Tree {
+		t := Tree("v1")
+		t = append(t, fsmodel.Node{Path: ".fsutil-metadata", Kind: fsmodel.File, Perm: 0644, Mtime: t1 + 9, Data: fsmodel.Content(9, 4)},
+			fsmodel.Node{Path: "b/sock", Kind: fsmodel.Socket, Perm: 0755, Mtime: t1 + 8}, f("z", 8, 7, t1+10))
+		t.Sort()
+		return t
+	}
 	extraTrees["one5"] = func() fsmodel.Tree { return fsmodel.Tree{f("a", 1, 5, t1)} }
 }
